@@ -16,7 +16,7 @@ LEVEL = ("(Rates from 1e-2 down to 1e-10 per fs, tiny relative refinements of as
          "propagated and compared with the matrix exponential (sum conservation, non-negativity, agreement within "
          "3x the exact truncation error), and get_PropagationMatrix on generated compatible sub-axes (step "
          "multiples 1..5, shifted starts on and off the coarse grid) is compared with expm."
-         " Later additions: constructor routes of the rate matrix (dimension, float zeros, integer zeros); refused assignment to a state that does not exist; a rate edited after the first propagation.")
+         " Later additions: constructor routes of the rate matrix (dimension, float zeros, integer zeros, dimension together with float/int/int32 zeros); refused assignment to a state that does not exist; a rate edited after the first propagation.")
 NOTE = ("dim <= 6, dt*||K||_1 <= 0.5 (the 'admissible' regime), axes with binary-fraction steps so that the "
         "library's exact float subset test is satisfiable; integer-lattice rates (reach degenerate/defective K).")
 RULE = ("history = dim 2..6, 1..14 set_rate ops (i,j,v>=0 on an integer lattice times a unit; i==j allowed -> must "
@@ -55,7 +55,8 @@ def _hist(draw, big):
             # (refused by the library; the caller catches the exception and goes on)
             "bad_after": draw(st.lists(st.integers(0, 13), max_size=2)),
             # how the (empty) rate matrix is created: by dimension, from a float array of zeros, from an integer one
-            "ctor": draw(st.sampled_from(["dim", "dim", "zeros-float", "zeros-int"])),
+            "ctor": draw(st.sampled_from(["dim", "dim", "zeros-float", "zeros-int", "dim+zeros-float", "dim+zeros-int",
+                                           "dim+zeros-int32"])),
             # one more assignment made after the first propagation, followed by a second propagation with the same
             # propagator object: [to, from, value]
             "edit_after": draw(st.sampled_from([None, None]) | st.tuples(idx, idx, st.integers(1, 20)).map(list))}
@@ -85,7 +86,12 @@ def check_case(case, ctx):
     if ctor == "dim":
         R = RateMatrix(dim=dim)
     else:
-        R = RateMatrix(data=numpy.zeros((dim, dim), dtype=float if ctor == "zeros-float" else int))
+        dt_ = {"float": float, "int": int, "int32": numpy.int32}[ctor.split("-")[-1]]
+        if ctor.startswith("dim+"):
+            # dimension and (matching) data both given
+            R = RateMatrix(dim=dim, data=numpy.zeros((dim, dim), dtype=dt_))
+        else:
+            R = RateMatrix(data=numpy.zeros((dim, dim), dtype=dt_))
     ctx.label("ctor:" + ctor)
     model = {}
     overwritten = False
